@@ -7,7 +7,7 @@
    in the evidence of C13, never decisive. *)
 From Coq Require Import NArith Arith Bool List String Lia.
 From PK Require Import Base.Outcome Base.Ctl Base.Finite Base.Machine Gen.Types Gen.Lib Gen.Set1 Gen.Set2 Impl
-  Spec.ScanRef Spec.ScanAuto Spec.Event Spec.Compose Spec.Pipeline
+  Spec.ScanRef Spec.ScanAuto Spec.EventRec Spec.Compose Spec.Pipeline
   Syn.Set1 Syn.Set2 Check.Scan Check.C19 Check.C13 Check.C13s Props.PipelineGen Props.Pipeline.
 From PK Require Props.C13s Props.C18.
 Import ListNotations.
